@@ -202,6 +202,11 @@ def gen_value(rng, owner, name, spec, sofar):
             for _ in range(rng.choice([0, 1, 2, 4])):
                 v = rng.bytes(rng.choice([0, 1, 2, 20]))
                 out.append((len(v), v))
+            # Vol 3 Part F 3.4.4.12: the LAST value may be truncated to what fits in ATT_MTU while its
+            # Length still reports the full attribute length (gatt_server builds exactly this)
+            if out and rng.chance(1, 2):
+                l, v = out[-1]
+                out[-1] = (rng.choice([l + 1, l + 16, 512, 65535]), v)
             return out
         if q == '<lambda>' and getattr(parser, '__module__', '') == 'bumble.att':
             return [_uint(rng, 2) for _ in range(rng.choice([0, 1, 2, 3, 10]))]
@@ -359,6 +364,42 @@ def registries():
     for code, cls in sorted(avrcp.Event.subclasses.items(), key=lambda kv: int(kv[0])):
         out.append(Entry('avrcp.event', int(code), cls, list(cls.fields), lambda kw, cls=cls: cls(**kw), avrcp.Event.from_bytes))
     return out
+
+
+def wire_cases(rng, entry):
+    """well-formed PDUs laid out by hand from the specification (not by bumble's serializers) in
+    which a declared length and the octets actually present differ in the way the wire format
+    allows: the truncated last (Length, Value) tuple of a Read Multiple Variable Response.
+    -> list of bytes as entry.parse expects them"""
+    out = []
+    if entry.proto == 'att' and entry.cls.__name__ == 'ATT_Read_Multiple_Variable_Response':
+        for _ in range(3):
+            body = b''
+            for _ in range(rng.choice([0, 1, 3])):
+                v = rng.bytes(rng.choice([0, 1, 7]))
+                body += struct.pack('<H', len(v)) + v
+            v = rng.bytes(rng.choice([0, 1, 14]))
+            body += struct.pack('<H', len(v) + rng.choice([1, 16, 498])) + v      # full length, truncated value
+            out.append(bytes([entry.code]) + body)
+    return out
+
+
+def wire_roundtrip(entry, wire):
+    """parse -> rebuild a FRESH object from the parsed fields (no cached payload) -> same bytes"""
+    name = entry.cls.__name__
+    try:
+        p = entry.parse(wire)
+    except Exception as e:  # noqa: BLE001
+        return (f'{entry.proto}:{name}:parse', f'well-formed {name} {wire[:24].hex()} is rejected: {type(e).__name__}: {e}')
+    names = [n for f in entry.fields for n in ([x[0] for x in f] if isinstance(f, list) else [f[0]])]
+    try:
+        kw = {n: getattr(p, n) for n in names}
+        b = payload_bytes(entry, entry.build(kw))
+    except Exception as e:  # noqa: BLE001
+        return (f'{entry.proto}:{name}:rebuild', f'{name}: parsed field values do not construct: {type(e).__name__}: {e}')
+    if b != wire:
+        return (f'{entry.proto}:{name}:bytes', f'{name}: {wire[:24].hex()} parsed and rebuilt from its fields serialises as {b[:24].hex()}')
+    return None
 
 
 def payload_bytes(entry, obj):
@@ -618,7 +659,10 @@ def field_xspec(owner, name, spec):
             return ('XU16Strict',)
         if q == 'ATT_Read_Multiple_Variable_Response.<lambda>':
             _probe(where, ser([(2, b'ab'), (0, b'')]) == b'\x02\x00ab\x00\x00'
-                   and par(b'\x21\x02\x00ab\x00\x00', 1) == (7, [(2, b'ab'), (0, b'')]))
+                   and par(b'\x21\x02\x00ab\x00\x00', 1) == (7, [(2, b'ab'), (0, b'')])
+                   # each tuple carries its OWN Length: a truncated last value keeps it
+                   and ser([(1, b'x'), (30, b'abc')]) == b'\x01\x00x\x1e\x00abc'
+                   and par(b'\x21\x01\x00x\x1e\x00abc', 1) == (9, [(1, b'x'), (30, b'abc')]))
             return ('XLvList',)
         if q == '_parse_service_record_handle_list':
             _probe(where, ser([1, 0x01020304]) == b'\x00\x02\x00\x00\x00\x01\x01\x02\x03\x04'
